@@ -636,8 +636,8 @@ static int Gen(int argc, char ** argv)
 // ------------------------------------------------------------------------------------------------ helper processes (C08)
 struct Child
 {
-   std::string name; std::vector<std::string> args; pid_t pid; FILE * to; FILE * from; uint64_t asks; int restarts;
-   Child() : pid(-1), to(NULL), from(NULL), asks(0), restarts(0) {}
+   std::string name; std::vector<std::string> args; pid_t pid; FILE * to; FILE * from; uint64_t asks; int restarts; int nDetours; uint64_t detourCount;
+   Child() : pid(-1), to(NULL), from(NULL), asks(0), restarts(0), nDetours(0), detourCount(0) {}
    bool Start()
    {
       int a[2], b[2]; if ((pipe(a) != 0)||(pipe(b) != 0)) return false;
@@ -740,8 +740,8 @@ struct Impls
    Impls() : comparisons(0) {}
    void Setup(char ** av)   // <wire_mini> <wire_micro> <python3> <wire_py.py>
    {
-      mini.name = "mini";   mini.args.push_back(av[0]);
-      micro.name = "micro"; micro.args.push_back(av[1]);
+      mini.name = "mini";   mini.args.push_back(av[0]); mini.nDetours = 7;      // the helpers' D command: the same content through the implementation's own mutating calls
+      micro.name = "micro"; micro.args.push_back(av[1]); micro.nDetours = 3; py.nDetours = 5;
       py.name = "python";   py.args.push_back(av[2]); py.args.push_back("-u"); py.args.push_back(av[3]); py.args.push_back("serve"); py.args.push_back(std::string(getenv("VERIF_REPO") ? getenv("VERIF_REPO") : "/repo") + "/lang/python3");
    }
    void Stop() {mini.Stop(); micro.Stop(); py.Stop();}
@@ -765,7 +765,20 @@ static void AskImpl(Impls & I, Child & c, const std::string & cppHex, const std:
       const bool alive = c.Ask("B " + text, reply); I.comparisons++;
       sameB = ((alive)&&(reply == "K " + cppHex)) ? 1 : 0; replyB = reply;
       if (sameB == 0) notes.push_back(c.name + " native build: " + (reply.compare(0, 2, "K ") == 0 ? "different bytes " + Short(reply.substr(2)) : reply.substr(0, 300)));
-      else
+      else if (c.nDetours > 0)
+      {
+         // ... and the same content reached through the implementation's own MUTATING calls (rename / move / copy / replace-by-put / in-place edits) gives the same bytes
+         const int dv = 1 + (int)(c.detourCount++ % (uint64_t) c.nDetours);
+         char pre[32]; snprintf(pre, sizeof(pre), "D %d ", dv);
+         snprintf(g_ctx + strlen(g_ctx), sizeof(g_ctx) - strlen(g_ctx), " [%s D%d]", c.name.c_str(), dv);
+         const bool alive2 = c.Ask(pre + text, reply); I.comparisons++;
+         if ((alive2 == false)||(reply != "K " + cppHex))
+         {
+            sameB = 0; replyB = reply;
+            notes.push_back(c.name + " native construction through its mutating calls (detour " + std::string(pre + 2) + "): " + (reply.compare(0, 2, "K ") == 0 ? "different bytes " + Short(reply.substr(2)) : reply.substr(0, 300)));
+         }
+      }
+      if (sameB == 1)
       {
          // ... and the C++ parser accepts what it produced
          std::string nb; (void) UnHex(reply.substr(2), nb);
@@ -1024,6 +1037,115 @@ static int X08Gen(int argc, char ** argv)
    return 0;
 }
 
+// ------------------------------------------------------------------------------------------------ x08heap (C08: aliasing histories on live Python objects)
+//   wire x08heap <behaviours.ndjson> <report.ndjson> <python3> <wire_py.py>     behaviours of WireHeap.tla replayed on message.py objects that stay alive across
+//   the calls (sub-Messages changed through aliases, lists changed in place, shared lists); after EVERY call EVERY object's FlattenedSize() and bytes = specification's
+static int X08Heap(int argc, char ** argv)
+{
+   if (argc < 6) return 2;
+   FILE * in = fopen(argv[2], "r"); if (in == NULL) return 2;
+   OpenReport(argv[3]);
+   Child py; py.name = "python"; py.args.push_back(argv[4]); py.args.push_back("-u"); py.args.push_back(argv[5]); py.args.push_back("serve"); py.args.push_back(std::string(getenv("VERIF_REPO") ? getenv("VERIF_REPO") : "/repo") + "/lang/python3");
+   uint64_t nBeh = 0, nFollowed = 0, nSteps = 0, nChecks = 0; std::string line, reply;
+   while ((mj::ReadLine(in, line))&&(g_violCases < MAX_VIOL_CASES))
+   {
+      mj::Value beh; if (mj::Parse(line, beh) == false) return 2;
+      const mj::Value & steps = beh["steps"]; nBeh++;
+      Strs viol; size_t k = 0;
+      alarm(120);
+      for (k=0; (k<steps.a.size())&&(viol.empty()); k++)
+      {
+         const mj::Value & s = steps.a[k]; const std::string & op = s["op"].str();
+         snprintf(g_ctx, sizeof(g_ctx), "x08heap behaviour %lld step %zu (%s)", (long long) beh["id"].i(), k, op.c_str());
+         std::string req;
+         if (k == 0) {req = "H"; char t[16]; for (size_t o=0; o<s["ws"].a.size(); o++) {snprintf(t, sizeof(t), " %08x", W32(s["ws"].a[o])); req += t;}}
+         else
+         {
+            char t[64]; const uint32 tc = (s["t"].a.size() == 4) ? W32(s["t"]) : 0;
+            snprintf(t, sizeof(t), " %08x ", tc);
+            req = "S " + op + " " + std::to_string((long long) s["o"].i()) + " " + Hex(BytesOf(s["n"])) + t + Hex(BytesOf(s["v"])) + " " + std::to_string((long long) s["i"].i()) + " " + std::to_string((long long) s["k"].i());
+         }
+         const bool alive = py.Ask(req, reply); nSteps++;
+         if ((alive == false)||(reply.compare(0, 2, "K ") != 0)) {viol.push_back("message.py fails on the call: " + reply.substr(0, 300)); break;}
+         // K <size> <hex> per object
+         std::vector<std::string> tk; {size_t a = 2; while (a <= reply.size()) {size_t b = reply.find(' ', a); if (b == std::string::npos) b = reply.size(); tk.push_back(reply.substr(a, b-a)); a = b+1;}}
+         for (size_t o=0; (o<s["bs"].a.size())&&(2*o+1 < tk.size()); o++)
+         {
+            nChecks++;
+            const std::string expHex = Hex(BytesOf(s["bs"].a[o])); char t[200];
+            if (tk[2*o+1] != expHex) {snprintf(t, sizeof(t), "object %zu: message.py serialises other bytes than the documented layout of the content the history leaves: ", o+1); viol.push_back(std::string(t) + "python=" + Short(tk[2*o+1]) + " spec=" + Short(expHex));}
+            else if (atoll(tk[2*o].c_str()) != s["zs"].a[o].i()) {snprintf(t, sizeof(t), "object %zu: message.py FlattenedSize() = %s (the transceiver's frame length word) but the body has %lld bytes", o+1, tk[2*o].c_str(), (long long) s["zs"].a[o].i()); viol.push_back(t);}
+         }
+      }
+      alarm(0);
+      if (viol.size() > 0)
+      {
+         g_violCases++;
+         mj::Value calls = mj::Value::Arr();
+         for (size_t j=0; (j<=k)&&(j<steps.a.size()); j++) {mj::Value c = mj::Value::Obj(); for (size_t q=0; q<steps.a[j].o.size(); q++) if ((steps.a[j].o[q].first != "bs")&&(steps.a[j].o[q].first != "zs")) c.set(steps.a[j].o[q].first, steps.a[j].o[q].second); calls.push(c);}
+         ReportLine(mj::Value::Obj().set("behaviour", beh["id"]).set("step", mj::Value::Int((int64_t) k)).set("violations", StrArr(viol)).set("calls", calls));
+      }
+      else nFollowed++;
+   }
+   py.Stop();
+   ReportLine(mj::Value::Obj().set("summary", mj::Value::Bool(true)).set("behaviours", mj::Value::Int((int64_t) nBeh)).set("followed", mj::Value::Int((int64_t) nFollowed)).set("steps", mj::Value::Int((int64_t) nSteps)).set("object_checks", mj::Value::Int((int64_t) nChecks)));
+   return 0;
+}
+
+// ------------------------------------------------------------------------------------------------ x08sizes (C08 frames: body sizes across the receivers' internal thresholds)
+// a Message whose flattened size is exactly S (12, or >= 35): one raw field "p" with one item of S - 34 bytes
+static mj::Value SizedContent(uint32 S, uint32 salt)
+{
+   mj::Value fs = mj::Value::Arr();
+   if (S >= 35) {std::string pad(S - 34, '\0'); for (size_t i=0; i<pad.size(); i++) pad[i] = (char)((i * 7 + salt) & 0xFF); fs.push(mj::Value::Obj().set("name", ArrOf("p")).set("type", ArrOf(LE32(B_RAW_TYPE))).set("items", mj::Value::Arr().push(ArrOf(pad))));}
+   return mj::Value::Obj().set("what", ArrOf(LE32(S))).set("fields", fs);
+}
+//   wire x08sizes <seed> <trace.ndjson> <report.ndjson> <wire_mini> <wire_micro> <python3> <wire_py.py>
+//   sessions of Messages whose flattened sizes sweep 2030..2060 (MessageIOGateway: 2048-byte scratch buffer minus the 8-byte header), the mini gateway's buffer
+//   growth (2 x (body + 8)) and its 64 KiB shrink; every gateway as sender and as receiver (DoFrames); the streams are logged and TLC validates them against Frame
+static int X08Sizes(int argc, char ** argv)
+{
+   if (argc < 9) return 2;
+   const uint32 seed = (uint32) atoll(argv[2]);
+   FILE * tr = fopen(argv[3], "w"); if (tr == NULL) return 2;
+   OpenReport(argv[4]);
+   Impls I; I.Setup(argv+5);
+   Rng slice(seed ^ 0x2545F491u); g_sliceRng = &slice;
+   std::vector<std::vector<uint32> > sessions;
+   for (uint32 S=2030; S<=2060; S+=4) {std::vector<uint32> v; for (uint32 q=S; (q<S+4)&&(q<=2060); q++) v.push_back(q); sessions.push_back(v);}
+   {const uint32 a[] = {2060, 2049, 2048, 2041, 2040, 2039, 12}; sessions.push_back(std::vector<uint32>(a, a+7));}
+   {const uint32 a[] = {12, 35, 36, 12};                          sessions.push_back(std::vector<uint32>(a, a+4));}
+   {const uint32 a[] = {100, 207, 208, 209, 424, 425};            sessions.push_back(std::vector<uint32>(a, a+6));}      // mini gateway: buffer = 2 x (body + 8) = 216: bodies 208 / 209 fit exactly / do not
+   {const uint32 a[] = {40000, 65527, 65528, 65529, 12};          sessions.push_back(std::vector<uint32>(a, a+5));}      // mini gateway: shrunk to 64 KiB after 40000: body + 8 = 65536 fits exactly
+   {const uint32 a[] = {65535, 65536, 65537, 70000, 65528};       sessions.push_back(std::vector<uint32>(a, a+5));}
+   uint64_t nFrames = 0, nMsgs = 0, bytes = 0;
+   for (size_t si=0; (si<sessions.size())&&(g_violCases < MAX_VIOL_CASES); si++)
+   {
+      snprintf(g_ctx, sizeof(g_ctx), "x08sizes session %zu (first size %u)", si, sessions[si][0]);
+      alarm(120);
+      std::vector<MessageRef> msgs; Strs bs, texts, viol;
+      for (size_t j=0; j<sessions[si].size(); j++)
+      {
+         const mj::Value c = SizedContent(sessions[si][j], (uint32)(si * 31 + j));
+         MessageRef m = BuildScript(c); if (m() == NULL) return 2;
+         const std::string b = FlatPlain(*m());
+         if (b.size() != sessions[si][j]) {viol.push_back("internal: padded Message has another size"); break;}
+         msgs.push_back(m); bs.push_back(b); {std::string t; ContentText(c, t); texts.push_back(t);} bytes += b.size(); nMsgs++;
+      }
+      if (viol.empty()) DoFrames(I, msgs, bs, texts, tr, viol, nFrames);
+      alarm(0);
+      if (viol.size() > 0)
+      {
+         g_violCases++;
+         mj::Value sz = mj::Value::Arr(); for (size_t j=0; j<sessions[si].size(); j++) sz.push(mj::Value::Int(sessions[si][j]));
+         ReportLine(mj::Value::Obj().set("session", mj::Value::Int((int64_t) si)).set("flattened_sizes", sz).set("violations", StrArr(viol)));
+      }
+   }
+   I.Stop(); fclose(tr);
+   ReportLine(mj::Value::Obj().set("summary", mj::Value::Bool(true)).set("sessions", mj::Value::Int((int64_t) nFrames)).set("messages", mj::Value::Int((int64_t) nMsgs)).set("bytes", mj::Value::Int((int64_t) bytes)).set("comparisons", mj::Value::Int((int64_t) I.comparisons)));
+   return 0;
+}
+
 // ------------------------------------------------------------------------------------------------ pyecho (C08 frames, Python leg)
 static int PyEcho(int argc, char ** argv)
 {
@@ -1047,6 +1169,18 @@ static int PyEcho(int argc, char ** argv)
       contents.push_back(c); scripts.push_back(sc); sent.push_back(FlatPlain(*m())); bytes += sent.back().size();
       if (gw.AddOutgoingMessage(m).IsError()) return 2;
    }
+   // ... then frames whose body sizes sweep the receivers' thresholds (Python as receiver and as sender, C++ as receiver of Python's frames)
+   {
+      std::vector<uint32> sz; for (uint32 S=2030; S<=2060; S++) sz.push_back(S);
+      const uint32 more[] = {12, 35, 2039, 65528, 65536, 70000, 2048, 2041}; for (size_t i=0; i<sizeof(more)/sizeof(more[0]); i++) sz.push_back(more[i]);
+      for (size_t i=0; i<sz.size(); i++)
+      {
+         const mj::Value c = SizedContent(sz[i], (uint32) i);
+         MessageRef m = BuildScript(c); if (m() == NULL) return 2;
+         contents.push_back(c); scripts.push_back(mj::Value()); sent.push_back(FlatPlain(*m())); bytes += sent.back().size();
+         if (gw.AddOutgoingMessage(m).IsError()) return 2;
+      }
+   }
    const uint64 deadline = GetRunTime64() + SecondsToMicros(150);
    bool ioError = false;
    while ((got.size() < sent.size())&&(GetRunTime64() < deadline))
@@ -1060,12 +1194,60 @@ static int PyEcho(int argc, char ** argv)
    for (size_t i=0; i<sent.size(); i++)
    {
       const bool eq = (i < got.size())&&(got[i] == sent[i]); if (eq) same++;
-      std::string ln = mj::ToString(mj::Value::Obj().set("op", mj::Value::Str("PyEcho")).set("m", contents[i]).set("s", scripts[i]).set("b", ArrOf(sent[i])).set("same", mj::Value::Int(eq ? 1 : 0))); ln += '\n'; fputs(ln.c_str(), tr);
+      mj::Value rec = mj::Value::Obj().set("op", mj::Value::Str("PyEcho")).set("m", contents[i]); if (scripts[i].type == mj::Value::OBJ) rec.set("s", scripts[i]);
+      std::string ln = mj::ToString(rec.set("b", ArrOf(sent[i])).set("same", mj::Value::Int(eq ? 1 : 0))); ln += '\n'; fputs(ln.c_str(), tr);
       if ((eq == false)&&(viol.size() < 3)) {char tmp[200]; snprintf(tmp, sizeof(tmp), "Message %zu of %zu sent to the Python transceiver %s", i, sent.size(), (i < got.size()) ? "comes back with other bytes" : (ioError ? "is not echoed: the connection broke" : "is not echoed within 150 s")); viol.push_back(tmp);}
+   }
+   // ... then the Python side ORIGINATES frames: it keeps one status Message (top > mid > leaf), changes the leaf through its own reference, and sends the same
+   // top object again (wire_py.py echo, 'HIST'); every frame is acknowledged before the next change, and must be byte-identical to the C++ encoding of the same content
+   uint32 histSame = 0; const uint32 HISTN = 8;
+   if ((viol.empty())&&(ioError == false)&&(got.size() == sent.size()))
+   {
+      MessageRef trig = GetMessageFromPool(0x48495354); (void) trig()->AddInt32("n", (int32) HISTN); (void) gw.AddOutgoingMessage(trig);
+      Message leaf(3), mid(2), top(1);
+      (void) leaf.AddString("s", "x0");
+      for (uint32 k=0; (k<HISTN)&&(viol.empty()); k++)
+      {
+         if (k > 0)
+         {
+            String x; char t[16]; snprintf(t, sizeof(t), "x%u", k); for (uint32 q=0; q<1+(k%3); q++) x += t;
+            (void) leaf.AddString("s", x);
+            if (k % 2) {(void) leaf.RemoveName("q"); for (uint32 q=0; q<k; q++) (void) leaf.AddInt64("q", (int64) k);}
+         }
+         mid.Clear(); mid.what = 2; (void) mid.AddMessage("leaf", leaf); {const int8 b[2] = {1, 2}; (void) mid.AddData("b", B_INT8_TYPE, b, 2);}
+         top.Clear(); top.what = 1; (void) top.AddMessage("mid", mid); (void) top.AddInt32("k", (int32) k);
+         const std::string want = FlatPlain(top);
+         std::string have; bool gotOne = false;
+         const uint64 dl = GetRunTime64() + SecondsToMicros(60);
+         while ((gotOne == false)&&(GetRunTime64() < dl))
+         {
+            if (gw.HasBytesToOutput()) (void) gw.DoOutput(1+R(R(2) ? 8 : 3000));
+            if (gw.DoInput(q, 1+R(R(2) ? 8 : 3000)).IsError()) {ioError = true; break;}
+            MessageRef m; if (q.GetMessages().RemoveHead(m).IsOK()) {have = FlatPlain(*m()); gotOne = true;}
+         }
+         const bool eq = (gotOne)&&(have == want); if (eq) histSame++;
+         mj::Value content = mj::Value::Obj();   // the content as a Message value for TLC: parsed back from the C++ bytes is not independent, so log what was built
+         {
+            mj::Value sItems = mj::Value::Arr(); {for (uint32 q=0; q<=k; q++) {String x; char t[16]; snprintf(t, sizeof(t), "x%u", q); for (uint32 r2=0; r2<((q == 0) ? 1 : 1+(q%3)); r2++) x += t; sItems.push(ArrOf(std::string(x())));}}
+            mj::Value lf = mj::Value::Arr(); lf.push(mj::Value::Obj().set("name", ArrOf("s")).set("type", ArrOf(LE32(B_STRING_TYPE))).set("items", sItems));
+            uint32 lastOdd = (k % 2) ? k : (k ? k-1 : 0);
+            if (lastOdd) {mj::Value qi = mj::Value::Arr(); for (uint32 q2=0; q2<lastOdd; q2++) qi.push(ArrOf(LE32(lastOdd) + LE32(0))); lf.push(mj::Value::Obj().set("name", ArrOf("q")).set("type", ArrOf(LE32(B_INT64_TYPE))).set("items", qi));}
+            mj::Value leafV = mj::Value::Obj().set("what", ArrOf(LE32(3))).set("fields", lf);
+            mj::Value mf = mj::Value::Arr(); mf.push(mj::Value::Obj().set("name", ArrOf("leaf")).set("type", ArrOf(LE32(B_MESSAGE_TYPE))).set("items", mj::Value::Arr().push(leafV)));
+            mf.push(mj::Value::Obj().set("name", ArrOf("b")).set("type", ArrOf(LE32(B_INT8_TYPE))).set("items", mj::Value::Arr().push(ArrOf(std::string("\x01"))).push(ArrOf(std::string("\x02")))));
+            mj::Value midV = mj::Value::Obj().set("what", ArrOf(LE32(2))).set("fields", mf);
+            mj::Value tf = mj::Value::Arr(); tf.push(mj::Value::Obj().set("name", ArrOf("mid")).set("type", ArrOf(LE32(B_MESSAGE_TYPE))).set("items", mj::Value::Arr().push(midV)));
+            tf.push(mj::Value::Obj().set("name", ArrOf("k")).set("type", ArrOf(LE32(B_INT32_TYPE))).set("items", mj::Value::Arr().push(ArrOf(LE32(k)))));
+            content.set("what", ArrOf(LE32(1))).set("fields", tf);
+         }
+         std::string ln = mj::ToString(mj::Value::Obj().set("op", mj::Value::Str("PyEcho")).set("m", content).set("b", ArrOf(want)).set("same", mj::Value::Int(eq ? 1 : 0))); ln += '\n'; fputs(ln.c_str(), tr);
+         if (eq == false) {char tmp[200]; snprintf(tmp, sizeof(tmp), "frame %u of the status Message the Python side keeps, changes through a sub-Message reference and resends %s", k, gotOne ? "has other bytes than the C++ encoding of the same content" : (ioError ? "cannot be read: the frame's length word does not fit its body (connection broke)" : "does not arrive within 60 s")); viol.push_back(tmp); break;}
+         MessageRef ack = GetMessageFromPool(0x41434b31); (void) gw.AddOutgoingMessage(ack);
+      }
    }
    fclose(tr);
    if (viol.size() > 0) ReportLine(mj::Value::Obj().set("violations", StrArr(viol)).set("seed", mj::Value::Int(seed)));
-   ReportLine(mj::Value::Obj().set("summary", mj::Value::Bool(true)).set("sent", mj::Value::Int((int64_t) sent.size())).set("echoed_identically", mj::Value::Int(same)).set("bytes", mj::Value::Int((int64_t) bytes)));
+   ReportLine(mj::Value::Obj().set("summary", mj::Value::Bool(true)).set("resent_status_frames_identical", mj::Value::Int(histSame)).set("sent", mj::Value::Int((int64_t) sent.size())).set("echoed_identically", mj::Value::Int(same)).set("bytes", mj::Value::Int((int64_t) bytes)));
    return 0;
 }
 
@@ -1083,5 +1265,7 @@ int main(int argc, char ** argv)
    if (mode == "x08vec") return X08Vec(argc, argv);
    if (mode == "x08gen") return X08Gen(argc, argv);
    if (mode == "pyecho") return PyEcho(argc, argv);
+   if (mode == "x08heap")  return X08Heap(argc, argv);
+   if (mode == "x08sizes") return X08Sizes(argc, argv);
    return 2;
 }
